@@ -69,22 +69,16 @@ Definition body_text (m a : N) (parts : string) : string :=
    one after the other on the same shared state: same responses (joined by ","), same final
    state (counters, ordered index, single-use slots, recorded errors), the same panic if one of
    them panics, and the body's own result on top *)
-Theorem delegation_is_direct_calls fuel cfg armed s1 m a b :
-  is_d_provided m = true -> armed <> 2 ->
+(* the general form: any provided method of the inventory whose body is the harness' loop over [body_calls_of m a] *)
+Lemma delegation_is_direct_calls_of fuel cfg armed s1 m a b :
+  ((m =? 2) || (m =? 3))%bool = false -> armed <> 2 ->
   eval_act (S fuel) cfg armed s1 m a b ActDefault =
-  let '(st, ar, r) := direct_calls fuel cfg armed s1 (body_calls a) in
+  let '(st, ar, r) := direct_calls fuel cfg armed s1 (body_calls_of m a) in
   (st, ar, match r with inl parts => inl (body_text m a parts) | inr p => inr p end).
 Proof.
-  intros Hm Har. unfold eval_act. cbn [eval_act_h user_panic].
+  intros H23 Har. unfold eval_act. cbn [eval_act_h user_panic].
   destruct (N.eqb_spec armed 2) as [E|_]; [contradiction|].
-  assert (H23 : ((m =? 2) || (m =? 3))%bool = false).
-  { unfold is_d_provided in Hm. apply andb_true_iff in Hm as [H1 _]. apply N.leb_le in H1.
-    destruct (N.eqb_spec m 2), (N.eqb_spec m 3); try reflexivity; lia. }
   rewrite H23.
-  assert (Hbc : body_calls_of m a = body_calls a).
-  { unfold body_calls_of. unfold is_d_provided in Hm. apply andb_true_iff in Hm as [_ H2]. apply N.leb_le in H2.
-    destruct (N.eqb_spec m 24); [lia|]. destruct (N.eqb_spec m 35); [lia|]. cbn [orb]. destruct (N.eqb_spec m 30); [lia|]. destruct (N.eqb_spec m 34); [lia|reflexivity]. }
-  rewrite Hbc.
   (* the two loops differ only in what they do with the finished list and in the ghost level *)
   assert (G : forall cs st ar acc hl hl',
     fst (body_loop (fun st ar mj aj => let '(s2, act2) := hcall cfg st mj aj in eval_act_h fuel cfg ar s2 mj aj (aj + 1) act2 (0 + 1))
@@ -98,6 +92,44 @@ Proof.
     destruct (eval_act_h fuel cfg ar s2 mj aj (aj + 1) act2 0) as [[[s3' ar3'] r'] h']. cbn [fst] in E |- *.
     injection E as -> -> ->. destruct r' as [t|p]; [apply IH|reflexivity]. }
   unfold direct_calls. apply G.
+Qed.
+
+Theorem delegation_is_direct_calls fuel cfg armed s1 m a b :
+  is_d_provided m = true -> armed <> 2 ->
+  eval_act (S fuel) cfg armed s1 m a b ActDefault =
+  let '(st, ar, r) := direct_calls fuel cfg armed s1 (body_calls a) in
+  (st, ar, match r with inl parts => inl (body_text m a parts) | inr p => inr p end).
+Proof.
+  intros Hm Har.
+  assert (H23 : ((m =? 2) || (m =? 3))%bool = false).
+  { unfold is_d_provided in Hm. apply andb_true_iff in Hm as [H1 _]. apply N.leb_le in H1.
+    destruct (N.eqb_spec m 2), (N.eqb_spec m 3); try reflexivity; lia. }
+  assert (Hbc : body_calls_of m a = body_calls a).
+  { unfold body_calls_of. unfold is_d_provided in Hm. apply andb_true_iff in Hm as [_ H2]. apply N.leb_le in H2.
+    destruct (N.eqb_spec m 24); [lia|]. destruct (N.eqb_spec m 35); [lia|]. cbn [orb]. destruct (N.eqb_spec m 30); [lia|]. destruct (N.eqb_spec m 34); [lia|reflexivity]. }
+  rewrite <- Hbc. apply delegation_is_direct_calls_of; assumption.
+Qed.
+
+(* the provided methods whose body makes ONE required call with the same receiver kind - p_rc2 / p_rc3 (Rc<Self>),
+   p_arc2 (Arc<Self>), p_val2 (self): the instance travels into the helper, the required method gets it back
+   (from_delegator), and the outcome is that of calling the required method directly with the caller's argument *)
+Definition pair_partner (m : N) : option N :=
+  if (m =? 24) || (m =? 35) then Some 23 else if m =? 30 then Some 29 else if m =? 34 then Some 33 else None.
+
+Theorem pair_delegation_is_one_direct_call fuel cfg armed s1 m r a b :
+  pair_partner m = Some r -> armed <> 2 ->
+  eval_act (S fuel) cfg armed s1 m a b ActDefault =
+  let '(st, ar, res) := direct_calls fuel cfg armed s1 [(r, a)] in
+  (st, ar, match res with inl parts => inl (body_text m a parts) | inr p => inr p end).
+Proof.
+  intros Hp Har.
+  assert (H23 : ((m =? 2) || (m =? 3))%bool = false /\ body_calls_of m a = [(r, a)]).
+  { unfold pair_partner in Hp. unfold body_calls_of.
+    destruct (N.eqb_spec m 24) as [->|N24]; [injection Hp as <-; split; reflexivity|].
+    destruct (N.eqb_spec m 35) as [->|N35]; [injection Hp as <-; split; reflexivity|]. cbn [orb] in *.
+    destruct (N.eqb_spec m 30) as [->|N30]; [injection Hp as <-; split; reflexivity|].
+    destruct (N.eqb_spec m 34) as [->|N34]; [injection Hp as <-; split; reflexivity|]. discriminate. }
+  destruct H23 as [H23 Hbc]. rewrite <- Hbc. apply delegation_is_direct_calls_of; assumption.
 Qed.
 
 (* the body calls exactly the required methods, with the caller's argument carried along *)
